@@ -51,6 +51,10 @@ def gen_joint(rng, length, name):
         closed = c.state.name == "CLOSED" or s.state.name == "CLOSED"
         if r < 0.25 and c.state.name != "CLOSED":
             call = PS.g_client_call(rng, custom)
+            if c.state.name == "BINDING" and rng.random() < 0.5:
+                # the application tries something the session must refuse while binding (a refusal has no effect); the conversation goes on
+                call = rng.choice([{"k": "search", "base": C.tx(""), "scope": 2, "deref": 0, "size": 0, "time": 0, "typesOnly": False, "filter": None, "attrs": [],
+                                    "controls": []}, {"k": "extended", "name": C.tx("1.2.3"), "value": None, "controls": []}])
             # the application tries the call; admissible = the session accepts it (a refusal has no effect, C10)
             if call["k"] == "unbind" and rng.random() < 0.7:
                 continue
@@ -128,8 +132,32 @@ def gen_joint(rng, length, name):
             o = rep["outcome"]
             if o["k"] == "msgs":
                 got[dst].extend(o["ms"])
+                if dst == sn:
+                    for m in o["ms"]:
+                        kinds[m["id"]] = m["op"]["k"]
             else:
                 log.append((len(reqs) - 1, dst, o))
+    # agreement probe through the API only: when everything has arrived, both sides are open and idle by the applications' own bookkeeping (every
+    # request the server application saw has had its final response, every response has been handed to the client application), then no operation
+    # is in progress on either side — so a new bind is admissible: the client accepts the call and the server accepts the request
+    quiescent = not pipe[cn] and not pipe[sn] and c.state.name == "OPENED" and s.state.name in ("OPENED",) and not kinds \
+        and len(got[sn]) == len(sent[cn]) and len(got[cn]) == len(sent[sn])
+    if quiescent:
+        rep = do({"op": "call", "name": cn, "call": {"k": "bind", "dn": C.tx(""), "cred": {"k": "simple", "pw": C.tx("")}, "controls": []}})
+        if rep["outcome"]["k"] != "sent":
+            log.append((len(reqs) - 1, cn, {"k": "probe: the client refuses a bind although no operation is in progress (all requests answered, all responses delivered)"}))
+        else:
+            rep = do({"op": "call", "name": cn, "call": {"k": "drain", "amount": None}})
+            rep = do({"op": "call", "name": sn, "call": {"k": "receive", "chunk": rep["outcome"]["b"]}})
+            if rep["outcome"]["k"] != "msgs":
+                log.append((len(reqs) - 1, sn, {"k": "probe: the server refuses a bind request although no operation is in progress"}))
+            else:
+                rep = do({"op": "call", "name": sn, "call": {"k": "bindResponse", "id": rep["outcome"]["ms"][0]["id"], "sasl": None, "code": 0, "mdn": C.tx(""),
+                                                            "diag": C.tx(""), "controls": []}})
+                rep = do({"op": "call", "name": sn, "call": {"k": "drain", "amount": None}})
+                rep = do({"op": "call", "name": cn, "call": {"k": "receive", "chunk": rep["outcome"]["b"]}})
+                if rep["outcome"]["k"] != "msgs" or c.state.name != "OPENED" or s.state.name != "OPENED":
+                    log.append((len(reqs) - 1, cn, {"k": "probe: the bind made at quiescence does not complete on both sides"}))
     return reqs, sent, got, pipe, log, (c, s)
 
 
@@ -164,6 +192,8 @@ def run(ctx):
                     (dst == cn and any(m["op"]["k"] == "extResp" and m["op"].get("name") == C.tx(NOTICE) for m in sent[sn]))
                 if not designed:
                     violations.append({"key": None, "what": "a protocol error occurred in an admissible joint history", "history": reqs[: idx + 1]})
+            elif o["k"].startswith("probe:"):
+                violations.append({"key": None, "what": o["k"][7:], "history": reqs[: idx + 1]})
             else:
                 violations.append({"key": None, "what": f"receive raised {o['k']} in an admissible joint history", "history": reqs[: idx + 1]})
         # (2) every message sent is received exactly once, in order, as an equal value (prefix while bytes are in flight)
